@@ -510,6 +510,56 @@ func c18Sequential(c *core.Ctx) {
 			cs.Check(merr2 == nil && bytes.Equal(m2, wantM), "history/marshal-after-caller-wrote-into-earlier-result/"+k.String(), det(core.W{"first_hex": mon.Hex(wantM, 200), "second_hex": mon.Hex(m2, 200), "error": errStr(merr2)}))
 		}
 	})
+	// an error a decoder returned is a value too: its text may not change when the caller reuses
+	// the buffer the failed decode was given
+	c.Section("kept-errors", c.N(60000, 3000000), func(cs *core.Case) {
+		r := cs.R
+		k := gen.Kind(cs.Idx % uint64(gen.NumKinds))
+		e, err := ref.Encode(gen.Packet(r, k, gen.Opts{Small: true, NoBig: true}), ref.Lib)
+		if err != nil || len(e.B) < 4 {
+			return
+		}
+		in := cloneBytes(e.B)
+		switch r.Intn(6) {
+		case 0:
+			in[0] = in[0]&0x3F | byte(r.Pick(0, 1, 3))<<6 // version
+		case 1:
+			in[0] ^= 0x20 // padding bit
+		case 2:
+			in[0] = in[0]&0xE0 | byte(r.Intn(32)) // count / FMT
+		case 3:
+			in[1] = byte(r.Pick(199, 200, 201, 202, 203, 204, 205, 206, 207, 208, int(r.U8()))) // packet type
+		case 4:
+			in = in[:r.Intn(len(in))]
+		default:
+			in = gen.Mutate(r, in)
+		}
+		for _, via := range []string{"own", "datagram"} {
+			buf := cloneBytes(in)
+			var derr error
+			if pan, _, _ := core.Guard(func() {
+				if via == "own" {
+					derr = gen.New(k).Unmarshal(buf)
+				} else {
+					_, derr = rtcp.Unmarshal(buf)
+				}
+			}); pan || derr == nil {
+				continue
+			}
+			var before, after string
+			core.Guard(func() { before = derr.Error() })
+			for i := range buf {
+				buf[i] = buf[i]*167 + 13
+			}
+			core.Guard(func() { after = derr.Error() })
+			cs.Eval(1)
+			cs.Count("kept-errors/" + via)
+			cs.Distinct(core.Digest([]byte(via), in))
+			cs.Check(before == after, "history/error-text-changed-when-input-buffer-was-overwritten/"+k.String(), func() core.W {
+				return core.W{"type": k.String(), "via": via, "input_hex": mon.Hex(in, 200), "error_text_at_return": before, "error_text_after_the_buffer_was_reused": after}
+			})
+		}
+	})
 	c.Section("histories", c.N(40000, 2000000), func(cs *core.Case) {
 		r := cs.R
 		n := 1 + r.Intn(4)
